@@ -74,6 +74,10 @@ func main() {
 			rules.SchemaDump(core.NewCtx("C03", "quick", prog))
 			return
 		}
+		if tier == "wire" {
+			rules.DumpWire(core.NewCtx("C03", "quick", prog))
+			return
+		}
 		if tier == "acc" {
 			rules.AccDump(core.NewCtx("C09", "quick", prog))
 			return
